@@ -137,6 +137,18 @@ def check_shape(part, normals, energies, case, key, scale_test=False):
                 part.fail("volume:%s" % key, "mesh volume %.9g differs from the half-space intersection's %.9g" % (abs(sv), ref_vol), case)
     except Exception as e:
         part.fail("mesh-raise:%s" % key, "to_trimesh / mesh check raised %r" % e, case)
+    nn = np.asarray(normals)
+    if np.array_equal(nn, np.rint(nn)):
+        # axis-aligned directions written the natural way - an integer array, nested tuples, energies as a list - describe the same shape
+        for cname, nrm, en in (("int-array", nn.astype(np.int64), np.array(energies)), ("tuples+list", tuple(tuple(int(x) for x in r) for r in nn), [float(e) for e in energies])):
+            part.tr()
+            try:
+                w3 = WulffConstruction(nrm, en)
+                v3 = halfspace.dedupe(np.asarray(w3.wulff_vertices, dtype=float), 1e-6 * scale)
+                if not (subset(v3, lib_v) and subset(lib_v, v3)):
+                    part.fail("container-dependence:%s:%s" % (cname, key), "normals given as %s give another vertex set than the same normals as floats (%d vs %d vertices)" % (cname, len(v3), len(lib_v)), case)
+            except Exception as e:
+                part.fail("container-raise:%s:%s" % (cname, key), "WulffConstruction with normals given as %s raised %r" % (cname, e), case)
     if scale_test:
         for s in (0.5, 3.0):
             part.tr()
